@@ -17,7 +17,7 @@ from ..report import AnalysisError
 from ..term import Resolver, pmatch, abstract, anf_of
 
 REL = "inference/pdf/hdi.py"
-FLOORS = {"input-layout": 1, "float-arithmetic": 1, "ownership": 1, "window-offset": 3, "axis-discipline": 5, "endpoints-are-samples": 1}
+FLOORS = {"input-layout": 1, "float-arithmetic": 1, "ownership": 1, "window-offset": 3, "axis-discipline": 5, "endpoints-are-samples": 1, "result-keyed-on-values": 1}
 
 
 NEUTRAL_CALLS = {"array", "asarray", "asanyarray", "copy", "ascontiguousarray", "asfortranarray", "atleast_1d", "deepcopy"}
@@ -123,7 +123,68 @@ def _input_layout(fn, construct):
                      slots={"arms": [{"test": t, "conversion": src, "layout_ops": list(o)} for t, o, src, _ in layouts]})
 
 
+class _RowCount(ast.NodeTransformer):
+    """`X.shape[0]` / `len(X)` of any array that has the rows of the sample (the argument itself or a local every definition of which
+    is a row-preserving function of it: array / asarray / sort / copy / reshape to (size, 1)) is rewritten to the row count of the
+    sorted copy `sname`: sorting, copying and adding a column axis do not change the number of rows."""
+    KEEP_F = {"array", "asarray", "sort", "copy", "ascontiguousarray", "asanyarray", "atleast_1d"}
+    KEEP_M = {"copy", "reshape", "astype"}
+
+    def __init__(self, fn, sname):
+        self.fn, self.sname = fn, sname
+        self.param = fn.args.args[0].arg
+        self.defs = {}
+        for st in ast.walk(fn):
+            if isinstance(st, ast.Assign) and len(st.targets) == 1 and isinstance(st.targets[0], ast.Name):
+                self.defs.setdefault(st.targets[0].id, []).append(st.value)
+
+    def rows_of_sample(self, e, seen=()):
+        if isinstance(e, ast.Name):
+            if e.id == self.param or e.id == self.sname:
+                return True
+            if e.id in seen or e.id not in self.defs:
+                return False
+            return all(self.rows_of_sample(v, seen + (e.id,)) for v in self.defs[e.id])
+        if isinstance(e, ast.Call):
+            f = e.func
+            if isinstance(f, ast.Name) and f.id in self.KEEP_F and e.args:
+                return self.rows_of_sample(e.args[0], seen)
+            if isinstance(f, ast.Attribute) and f.attr in self.KEEP_M:
+                if f.attr == "reshape":
+                    a0 = e.args[0] if e.args else None
+                    first = a0.elts[0] if isinstance(a0, (ast.List, ast.Tuple)) and a0.elts else a0
+                    if not (first is not None and (U(first) == "-1" or (isinstance(first, ast.Attribute) and first.attr == "size"))):
+                        return False
+                return self.rows_of_sample(f.value, seen)
+        return False
+
+    def visit_Subscript(self, n):
+        self.generic_visit(n)
+        if isinstance(n.value, ast.Attribute) and n.value.attr == "shape" and U(n.slice) == "0" and self.rows_of_sample(n.value.value):
+            return ast.parse(f"{self.sname}.shape[0]", mode="eval").body
+        return n
+
+    def visit_Call(self, n):
+        self.generic_visit(n)
+        if isinstance(n.func, ast.Name) and n.func.id == "len" and len(n.args) == 1 and self.rows_of_sample(n.args[0]):
+            return ast.parse(f"{self.sname}.shape[0]", mode="eval").body
+        return n
+
+
 def run(prog, tier):
+    # the interval is a function of the VALUES in the sample: nothing may be remembered under the identity of the caller's array
+    from .common import identity_memo_obligations
+    memo = identity_memo_obligations(prog, "result-keyed-on-values", [REL])
+    try:
+        obs, floors, meta = _run_main(prog, tier)
+    except AnalysisError:
+        if any(not o.ok for o in memo):       # a definite violation beats an analysis that cannot proceed
+            return memo, {}, {"explanation": "a result is remembered under the identity of a mutable argument; remaining rules not evaluated"}
+        raise
+    return memo + obs, floors, meta
+
+
+def _run_main(prog, tier):
     anf.reset()
     obs = []
     mi = prog.module(REL)
@@ -204,12 +265,18 @@ def run(prog, tier):
             why.append(f"the upper end is not take_along_axis({sname}, i + L, axis=0) with the same i and the same offset L = `{Ltxt}`; "
                        f"upper-end terms: " + "; ".join(U(t)[:200] for _, t in ups))
         # n is the number of rows of the sorted copy
-        if U(ast.parse(ntxt, mode="eval").body) not in (f"{sname}.shape[0]", f"len({sname})"):
+        if U(_RowCount(fn, sname).visit(ast.parse(ntxt, mode="eval").body)) not in (f"{sname}.shape[0]", f"len({sname})"):
             why.append(f"the window count uses `{ntxt}`, not the number of rows of `{sname}`")
     obs.append(struct_ob("window-offset", construct + "[ends]", not why,
                          "lower end must be s[i] and upper end s[i + L] with i = argmin over windows s[L:] - s[:n - L], per column: "
                          + "; ".join(why), REL, fn.lineno))
     if Lterm is not None:
+        Lterm = _RowCount(fn, found[2]['_s']).visit(Lterm)
+        other = [U(n) for n in ast.walk(Lterm) if (isinstance(n, ast.Attribute) and n.attr in ("shape", "size") and U(n.value) != found[2]['_s'])
+                 or (isinstance(n, ast.Call) and U(n.func) == "len" and n.args and U(n.args[0]) != found[2]['_s'])]
+        if other:
+            raise AnalysisError(f"window-offset: the offset `{U(Lterm)[:120]}` counts the rows of `{other[0]}`, which cannot be identified with "
+                                f"the rows of the sorted sample `{found[2]['_s']}`")
         La, _ = abstract(Lterm, [(f"{found[2]['_s']}.shape[0]", "n"), (f"len({found[2]['_s']})", "n")])
         Lv = guard(lambda: anf_of(La))
         obs.append(formula_ob("window-offset", construct + "[L]", Lv, anf.fn_("int", R.sym(frac) * n_sym), REL, fn.lineno,
